@@ -12,7 +12,7 @@ min/max must agree with the same order where defined; sort_keys must only
 reorder.  Deviations that fall in a recorded defect class (KNOWN_FINDINGS.txt)
 are reported as KNOWN-FINDING, everything else is a VIOLATION.
 """
-import json, re
+import datetime, json, re
 from fractions import Fraction
 import vlib
 
@@ -590,6 +590,13 @@ def replay(rp):
         r = multi([(rp["doc"], ['with_dtf("%s"; sort)' % rp["layout"]])])[0][0]
         k, v = res_json(r)
         return k == "ok" and v == rp["want"]
+    if kind == "ts":
+        inst = [datetime.datetime.fromisoformat(x) for x in rp["instants"]]
+        rs = multi([(rp["doc"], ["[.[0].t < .[1].t, .[0].t <= .[1].t, .[0].t > .[1].t, .[0].t >= .[1].t]", "sort_by(.t) | map(.i)"])])[0]
+        k1, v1 = res_json(rs[0])
+        k2, v2 = res_json(rs[1])
+        a, b = inst[0], inst[1]
+        return k1 == "ok" and v1 == [a < b, a <= b, a > b, a >= b] and k2 == "ok" and v2 == sorted(range(len(inst)), key=lambda i: inst[i])
     if kind == "sort_keys":
         t = rp["tree"]
         res = multi([(json.dumps(t), ["sort_keys(..)"])])[0]
@@ -993,6 +1000,48 @@ def run(chk):
                 viol({"kind": "dtf", "layout": lay, "doc": json.dumps([x for x, _ in it]), "got": repr(v), "want": want},
                      "under the date layout %s, sort of %s gives %r, the order (null, bool, numbers, dates by date, other strings) says %r" % (lay, json.dumps([x for x, _ in it]), v, want))
     mark("date_layouts")
+
+    # ---------------- timestamps: the same instant in different offsets / spellings (oracle only) ----------------
+    # < <= > >=, sort_by, min and max must all follow the order of the instants
+    utc = datetime.timezone.utc
+    def inst(y, mo, d, h=0, mi=0, sec=0):
+        return datetime.datetime(y, mo, d, h, mi, sec, tzinfo=utc)
+    TS = [("2021-01-01T00:00:00Z", inst(2021, 1, 1)), ("2021-01-01T02:00:00+02:00", inst(2021, 1, 1)), ("2020-12-31T19:00:00-05:00", inst(2021, 1, 1)),
+          ("2021-01-01T00:00:00.000Z", inst(2021, 1, 1)), ("2021-01-01", inst(2021, 1, 1)),
+          ("2021-01-01T01:00:00Z", inst(2021, 1, 1, 1)), ("2021-01-01T03:00:00+02:00", inst(2021, 1, 1, 1)),
+          ("2020-06-15T12:30:00Z", inst(2020, 6, 15, 12, 30)), ("2020-06-15T14:30:00+02:00", inst(2020, 6, 15, 12, 30)),
+          ("2021-01-01T00:00:01Z", inst(2021, 1, 1, 0, 0, 1)), ("2020-12-31T23:59:59-01:00", inst(2021, 1, 1, 0, 59, 59))]
+    tlists = [[TS[a], TS[b]] for a in range(len(TS)) for b in range(len(TS)) if a != b]
+    for _ in range(300 if thorough else 40):
+        tlists.append([rng.choice(TS) for _ in range(rng.randrange(3, 7))])
+    TEX = ["[.[] | .t | tag]", "[.[0].t < .[1].t, .[0].t <= .[1].t, .[0].t > .[1].t, .[0].t >= .[1].t]",
+           "sort_by(.t) | map(.i)", "map(.t) | min | to_string", "map(.t) | max | to_string", "sort_by(.t) | sort_by(.t) | map(.i)"]
+    tdocs = ["[" + ", ".join("{t: %s, i: %d}" % (sp, i) for i, (sp, _) in enumerate(l)) + "]" for l in tlists]
+    tres = multi([(d, TEX) for d in tdocs])
+    stats["timestamp_cases"] = len(tlists)
+    spell = dict(TS)
+    for l, d, rs in zip(tlists, tdocs, tres):
+        chk.count(("ts", d), nontrivial=True)
+        rp = {"kind": "ts", "doc": d, "instants": [t.isoformat() for _, t in l]}
+        kt, vt = res_json(rs[0])
+        if kt != "ok" or any(x != "!!timestamp" for x in vt):
+            broken.append("a generated timestamp is not tagged !!timestamp by the decoder: %s -> %r" % (d, vt))
+            continue
+        a, b = l[0][1], l[1][1]
+        k1, v1 = res_json(rs[1])
+        want_ops = [a < b, a <= b, a > b, a >= b]
+        if k1 != "ok" or v1 != want_ops:
+            viol(dict(rp, what="ops"), "timestamps %s: [<, <=, >, >=] of the first two gives %r, their instants say %r" % (d, v1, want_ops))
+        want_sort = sorted(range(len(l)), key=lambda i: l[i][1])
+        for ei in (2, 5):
+            k2, v2 = res_json(rs[ei])
+            if k2 != "ok" or v2 != want_sort:
+                viol(dict(rp, what="sort"), "timestamps %s: %s gives %r, their instants say %r" % (d, TEX[ei], v2, want_sort))
+        for ei, f in ((3, min), (4, max)):
+            k3, v3 = res_json(rs[ei])
+            if k3 != "ok" or spell.get(v3) != f(t for _, t in l):
+                viol(dict(rp, what="minmax"), "timestamps %s: %s gives %r, their instants say %s" % (d, TEX[ei], v3, f(t for _, t in l).isoformat()))
+    mark("timestamps")
     chk.extra["phase_s"] = phase
     # ---------------- verdict ----------------
     if stats["tag_mismatch_skipped"] > 0.02 * max(1, len(cases)):
@@ -1015,7 +1064,8 @@ def run(chk):
              "operators, exhaustive) with the order laws checked on every triple of the observed relation, min/max on scalar sequences, "
              "sort_keys(..) on nested maps; min / max / sort / unique / group_by / sort_by applied to several sequences in one context (`.[] | OP`) and under "
              "eval-all, each compared with the same operator on every sequence alone; with_dtf(LAYOUT; sort) for three date layouts on every ordered pair "
-             "of a pool (null, bools, numbers, dates, other strings) and on samples, against the order computed here (oracle only, not modelled). "
+             "of a pool (null, bools, numbers, dates, other strings) and on samples, against the order computed here (oracle only, not modelled); "
+             "!!timestamp scalars denoting equal and different instants in several offsets / spellings: < <= > >=, sort_by, min, max against the instants. "
              "A case is non-trivial when it has at least two elements; distinct by input text." % len(P),
         trusted=vlib.COMMON_TRUSTED + [
             "Spec/Order.v (hand-written total preorder; numbers placed before strings by choice, never used to judge a mixed sequence)",
